@@ -108,6 +108,10 @@ def jobs_for(tier):
     add(params=[(2, 3)], exponent_multiplier=2.0, graft=None, pf=1, sps=1, T=1, fixed=dict(mom=0, wd=0))
     add(params=[(2, 3)], ignored_dims=[0], graft="adagrad", pf=1, sps=1, T=2, fixed=dict(mom=0))
     add(params=[(3,), ()], mpd=2, graft="adam", pf=1, sps=2, T=2, fixed=dict(wd=0))
+    # blocks without any preconditioned dimension (0-d parameter without merging; every dimension ignored): precondition() hands its input back, so
+    # in-place work on the search direction must not reach the filtered-gradient state -- all regimes (beta3 == beta1 is the default configuration)
+    add(params=[(3,), ()], mpd=2, merge=False, graft=None, bias_corr=False, nesterov=False, decoupled=True, pf=1, sps=1, T=2, fixed=dict(mom=0, wd=0))
+    add(params=[(3,)], mpd=4, ignored_dims=[0], graft="sgd", bias_corr=False, nesterov=False, decoupled=False, pf=1, sps=1, T=2, fixed=dict(mom=0))
     # gradient presence and several parameters
     add(params=[(2, 2), (2,)], presence="symbolic", graft="adam", pf=1, sps=2, T=2, fixed=dict(wd=0, mom=0))
     # several parameter groups with their own hyperparameters and step counters (a group leaving beta3 unset inherits the resolved top-level value)
@@ -118,6 +122,11 @@ def jobs_for(tier):
     # scheduler changes lr / weight decay (/ momentum) between steps
     add(schedule=True, graft="sgd", nesterov=True, bias_corr=True, decoupled=True, T=2)
     add(schedule="with-momentum", graft="adagrad", nesterov=True, bias_corr=True, decoupled=False, T=2)
+    # weight decay scheduled to zero and back while the set of parameters with gradients changes (equal-shaped blocks: a stale masked list raises no shape error)
+    add(params=[(2,), (2,)], mpd=2, schedule=True, presence="symbolic", graft=None, nesterov=False, bias_corr=True, decoupled=True, pf=1, sps=1, T=3, rebase=True,
+        fixed=dict(mom=0, b1=0), assume_generic=True)
+    add(params=[(2,), (2,)], mpd=2, schedule=True, presence="symbolic", graft="sgd", nesterov=False, bias_corr=False, decoupled=False, pf=1, sps=2, T=3, rebase=True,
+        fixed=dict(mom=0, b1=0), assume_generic=True)
     # dtype pairs (tags): casts happen, no mismatch error
     for pd, fd in (("float64", "float32"), ("bfloat16", "float32"), ("float32", "float64")):
         add(pdtype=pd, fdtype=fd, graft="adam", pf=1, sps=1, T=2, fixed=dict(wd=0, mom=0))
@@ -159,6 +168,12 @@ def random_cfgs(seed, n, precond=("shampoo",), tier="quick", **extra):
         if rng.random() < 0.4:
             cfg["fixed"] = rng.choice([dict(mom=0), dict(wd=0), dict(b1=0), dict(mom=0, wd=0)])
             cfg["assume_generic"] = True
+        if rng.random() < 0.35:
+            # the default beta3 = -1 (filtering with beta1) is NOT in the generic regime: sample it explicitly
+            cfg["fixed"] = dict(cfg.get("fixed") or {}, b3=-1)
+        if rng.random() < 0.15 and all(len(s_) == 1 for s_ in cfg["params"] if len(s_)):
+            cfg["ignored_dims"] = [0]  # every dimension of the 1-d parameters ignored: blocks without Kronecker factors
+            cfg.pop("inv_root_override", None)
         cfg.update(extra)
         out.append(base_cfg(tier=tier, **cfg))
     return out
